@@ -3,6 +3,7 @@ SPECIFICATION Spec
 CONSTANTS
   GRIDS <- ThoroughAllGrids
   SGRIDS <- ThoroughMcSolveGrids
+  AGRIDS <- TinyGrids
   KMAX = 3
   DEN = 2
   OCCVALS = {0, 1, 2}
